@@ -38,6 +38,8 @@ struct EncCase
                           // 2 forward_list<Packet> iterators (plain forward iterators), 3 single-packet overload (batches of one)
     int32_t abortAfter{-1};  // history calls only (C10): >= 0: the caller's iterator throws at packet (abortAfter % size)
     uint8_t reuseObjects{0};  // 1: the earlier calls and the call under test encode from the same Packet objects, refilled in place
+    uint8_t decoderSawUnfinished{0};  // C01: 1..3 = the decoder received that many frames (first segment + intermediaries) of an
+                                      // earlier message on the same endpoint whose tail was lost, before the frames under test
 
     void io(Ar& a)
     {
@@ -51,6 +53,7 @@ struct EncCase
         a.optionalNum("overload", overload);
         a.optionalNum("abortAfter", abortAfter);
         a.optionalNum("reuseObjects", reuseObjects);
+        a.optionalNum("decoderSawUnfinished", decoderSawUnfinished);
     }
 };
 
